@@ -14,6 +14,51 @@ _IMMUTABLE_LEAF = (int, float, complex, str, bytes, bool, type(None), type, type
                    types.FunctionType, types.BuiltinFunctionType, types.MethodType, range)
 
 
+class Bomb:
+    """A user value whose copy fails once it is armed (copies of an unarmed one are unarmed)."""
+
+    def __init__(self, armed=False):
+        self.armed = armed
+
+    def __deepcopy__(self, memo):
+        if self.armed:
+            raise ValueError("bomb: this value refuses to be copied")
+        return Bomb(False)
+
+    def __eq__(self, other):
+        return isinstance(other, Bomb)
+
+    def __hash__(self):
+        return hash("Bomb")
+
+    def __repr__(self):
+        return f"Bomb(armed={self.armed})"
+
+
+class Catcher:
+    """A user container that recovers from a failing copy of what it holds (falls back to an empty one)."""
+
+    def __init__(self, inner=None):
+        self.inner = inner
+
+    def __deepcopy__(self, memo):
+        import copy as _copy
+
+        try:
+            return Catcher(_copy.deepcopy(self.inner, memo))
+        except ValueError:
+            return Catcher(None)
+
+    def __eq__(self, other):
+        return isinstance(other, Catcher)
+
+    def __hash__(self):
+        return hash("Catcher")
+
+    def __repr__(self):
+        return "Catcher(..)"
+
+
 class Box:
     """A deliberately mutable user value (not a spec class)."""
 
